@@ -13,6 +13,7 @@ DECIDING = ["kind:random_unitary", "kind:random_density_matrix", "kind:random_ps
 RULE = ("generators: dimensions 1..6, both is_real values, k_param over its whole range, list and scalar dimension arguments, seeds drawn at random; histories: random "
         "interleavings of seeded and unseeded calls with np.random.seed perturbations and foreign default_rng draws, logged and checked offline; measurements: spanning "
         "ensembles of 2..6 states (pure and mixed, any prior), Kraus / projective measurement sets with complex, float and integer dtype states; signature (monitor, function, dimension, options)")
+THOROUGH_REPEAT = 10  # the thorough tier runs its randomised case kinds this many times (new inputs each time)
 ASSUMPTIONS = [
     "random_povm: validity tolerance 50 eps cond(N) (N the normaliser recomputed from the seeded draws), never above 1e-5, 1e-5 for unseeded calls",
     "kind checks are model checks (eigenvalues / singular values / Gram matrices), not the library's own predicates; tolerance 1e-9 (rank: sigma_{k+1} <= 1e-9)",
